@@ -41,7 +41,7 @@ func instrIndex(i ssa.Instruction) int {
 // instrDominates: a is executed before b on every path reaching b.
 func instrDominates(a, b ssa.Instruction) bool {
 	if a.Parent() != b.Parent() {
-		return false
+		return instrDominatesDeep(a, b) // across transparent helpers (inline.go)
 	}
 	if a.Block() == b.Block() {
 		return instrIndex(a) < instrIndex(b)
@@ -99,6 +99,20 @@ func strip(v ssa.Value) ssa.Value {
 			} else {
 				return v
 			}
+		case *ssa.Parameter:
+			// parameter of a transparent helper: the argument at its only call site (inline.go)
+			if noParamLook > 0 {
+				return v
+			}
+			c := helperCall(x.Parent())
+			if c == nil {
+				return v
+			}
+			idx := paramIndex(x)
+			if idx < 0 || idx >= len(c.Call.Args) {
+				return v
+			}
+			v = c.Call.Args[idx]
 		default:
 			return v
 		}
@@ -405,8 +419,16 @@ func GuardsOfP(instr ssa.Instruction, prune EdgePrune) []Guard {
 			out = append(out, Guard{iff, false})
 		}
 	}
+	// inside a transparent helper: whatever guards its only call site guards this instruction too
+	if c := helperCall(fn); c != nil && guardDepth < 6 {
+		guardDepth++
+		out = append(out, GuardsOfP(c, prune)...)
+		guardDepth--
+	}
 	return out
 }
+
+var guardDepth int
 
 // A Fact is a guard's condition oriented to the arm taken:
 // either a comparison X Op Y that holds, or a boolean value that is True/False.
@@ -484,7 +506,9 @@ func factOf2(v ssa.Value, val bool, iff *ssa.If) Fact {
 func FactsAtP(instr ssa.Instruction, prune EdgePrune) []Fact {
 	var out []Fact
 	for _, g := range GuardsOfP(instr, prune) {
-		out = append(out, factOf(g))
+		f := factOf(g)
+		out = append(out, f)
+		out = append(out, helperOutcomeFacts(f, 0)...)
 	}
 	return out
 }
@@ -523,10 +547,15 @@ func nilnessPrune(isNil func(v ssa.Value) (known bool, nilv bool)) EdgePrune {
 }
 
 // FactsAt returns the facts that hold whenever instr executes.
-func FactsAt(instr ssa.Instruction) []Fact {
+func FactsAt(instr ssa.Instruction) []Fact { return factsAtDepth(instr, 0) }
+
+func factsAtDepth(instr ssa.Instruction, depth int) []Fact {
 	var out []Fact
 	for _, g := range GuardsOf(instr) {
-		out = append(out, factOf(g))
+		f := factOf(g)
+		out = append(out, f)
+		// a branch on the outcome of a transparent predicate helper: what its returns establish
+		out = append(out, helperOutcomeFacts(f, depth)...)
 	}
 	return out
 }
@@ -574,14 +603,29 @@ func renderDepth(v ssa.Value, d int) string {
 		}
 		return x.Value.ExactString()
 	case *ssa.Parameter:
+		if renderCanon > 0 {
+			// parameter of a transparent helper: what the only caller passes
+			if c := helperCall(x.Parent()); c != nil {
+				if idx := paramIndex(x); idx >= 0 && idx < len(c.Call.Args) {
+					return renderDepth(c.Call.Args[idx], d+1)
+				}
+			}
+			return canonType(x.Type())
+		}
 		return x.Name()
 	case *ssa.FreeVar:
+		if renderCanon > 0 {
+			return canonType(x.Type())
+		}
 		return x.Name()
 	case *ssa.Global:
 		return x.Name()
 	case *ssa.Function:
 		return x.Name()
 	case *ssa.Alloc:
+		if renderCanon > 0 {
+			return "&" + canonType(x.Type().Underlying().(*types.Pointer).Elem())
+		}
 		if x.Comment != "" {
 			return "&" + x.Comment
 		}
@@ -590,6 +634,12 @@ func renderDepth(v ssa.Value, d int) string {
 		if x.Op == token.MUL {
 			if fa, ok := x.X.(*ssa.FieldAddr); ok {
 				return renderDepth(fa.X, d+1) + "." + fieldOfAddr(fa).Name()
+			}
+			if a, ok := x.X.(*ssa.Alloc); ok && renderCanon > 0 {
+				if p := spilledParam(x); p != nil {
+					return renderDepth(p, d+1)
+				}
+				return canonType(a.Type().Underlying().(*types.Pointer).Elem())
 			}
 			if a, ok := x.X.(*ssa.Alloc); ok && a.Comment != "" {
 				return a.Comment
@@ -649,6 +699,9 @@ func renderDepth(v ssa.Value, d int) string {
 	case *ssa.TypeAssert:
 		return renderDepth(x.X, d+1) + ".(" + types.TypeString(x.AssertedType, shortQual) + ")"
 	case *ssa.Phi:
+		if renderCanon > 0 {
+			return "φ" + canonType(x.Type())
+		}
 		if x.Comment != "" {
 			return x.Comment
 		}
@@ -666,6 +719,12 @@ func renderDepth(v ssa.Value, d int) string {
 }
 
 func shortQual(p *types.Package) string { return p.Name() }
+
+// renderCanon > 0: render local names (parameters, locals, captured variables) as their types, so that
+// a rendering can key a frozen reason without depending on how a variable is called.
+var renderCanon int
+
+func canonType(t types.Type) string { return "‹" + types.TypeString(t, shortQual) + "›" }
 
 // ---------------------------------------------------------------------------
 // linear normal form  Σ c_i·term_i + k   (terms keyed by a type/role based string)
@@ -1093,4 +1152,12 @@ func linScale(l Lin, k int64) Lin {
 		out.Terms[t] = c * k
 	}
 	return out
+}
+
+// GuardsLocal: the guards of instr inside its own function only (no call-site guards of a
+// transparent helper) — for rules that mean "unconditional within this function".
+func GuardsLocal(instr ssa.Instruction) []Guard {
+	guardDepth += 100
+	defer func() { guardDepth -= 100 }()
+	return GuardsOfP(instr, nil)
 }
